@@ -144,6 +144,9 @@ void sim_wrap_done(int ret, int start);
 /* buffers */
 void sim_buf_created(void *b, int src, void *usermem, int switched);
 void sim_buf_memlen(int len);
+/* %option read (-Cr): the scanner's read(2) and fileno() calls come here */
+long sim_sys_read(int fd, void *buf, size_t n);
+int sim_fileno(FILE *f);
 void sim_sync_current(void *b, FILE *in);
 void sim_log_lex(int ret, int start, int lineno);
 /* scheduler */
